@@ -82,6 +82,66 @@ theorem StoredHashIndex_overflow (fuel level n : Nat) (hl : level < 2 ^ 63) (hn 
   · have h1 := StoredHashIndex_loop1_overflow level n fuel (by omega) hl hn (by omega)
     simp only [Generated.Tlog.StoredHashIndex, h1, mbind_error]
 
+/-! ### StoredHashCount -/
+
+theorem StoredHashCount_loop1_overflow : ∀ (f i nh : Nat), i < 2 ^ f → i < 2 ^ 64 → nh < 2 ^ 63 →
+    2 ^ 63 ≤ nh + Tlog.trailingOnes f i →
+    Generated.Tlog.StoredHashCount_loop1 (f + 1) (nh : Int) (i : Int) = .error .overflow := by
+  intro f
+  induction f with
+  | zero => intro i nh _ _ hnh hr; simp [Tlog.trailingOnes] at hr; omega
+  | succ f ih =>
+    intro i nh hi hi64 hnh hr
+    rw [Generated.Tlog.StoredHashCount_loop1]
+    simp only [band_natCast_one hi64, Tlog.trailingOnes] at hr ⊢
+    by_cases hodd : i % 2 = 1
+    · have hb : (i % 2 == 1) = true := by simp [hodd]
+      rw [hb] at hr
+      simp only [↓reduceIte] at hr
+      have hne : ¬ (((i % 2 : Nat) : Int) = 0) := by omega
+      have e1 : (nh : Int) + 1 = ((nh + 1 : Nat) : Int) := by omega
+      have hi2 : i / 2 < 2 ^ f := by rw [Nat.pow_succ] at hi; omega
+      simp only [hne, decide_false, Bool.not_false, ↓reduceIte, e1]
+      by_cases h2 : nh + 1 < 2 ^ 63
+      · simp only [chk64_natCast h2, mbind_ok, shr_natCast_one]
+        exact ih (i / 2) (nh + 1) hi2 (by omega) h2 (by omega)
+      · simp only [chk64_natCast_overflow (show 2 ^ 63 ≤ nh + 1 by omega), mbind_error]
+    · have hb : (i % 2 == 1) = false := by simp; omega
+      rw [hb] at hr
+      simp at hr; omega
+
+/-- `StoredHashCount` on an int64 argument `n ≥ 0` whose result does not fit in int64: overflow
+    (the converse of `StoredHashCount_eq`) -/
+theorem StoredHashCount_overflow (fuel n : Nat) (hn : n < 2 ^ 63) (hr : 2 ^ 63 ≤ Tlog.storedHashCount n) (hf : 65 ≤ fuel) :
+    Generated.Tlog.StoredHashCount fuel (n : Int) = .error .overflow := by
+  cases n with
+  | zero => simp [Tlog.storedHashCount] at hr
+  | succ m =>
+    rw [storedHashCount_succ] at hr
+    have hne : ¬ (((m + 1 : Nat) : Int) = 0) := by omega
+    have e1 : ((m + 1 : Nat) : Int) - 1 = (m : Int) := by omega
+    simp only [Generated.Tlog.StoredHashCount, hne, decide_false, Bool.false_eq_true, ↓reduceIte, e1,
+      chk64_natCast (show m < 2 ^ 63 by omega), mbind_ok]
+    by_cases hs : Tlog.S m < 2 ^ 63
+    · have hshi := StoredHashIndex_eq fuel 0 m (by rw [Tlog.storedHashIndex_zero_eq]; omega) (by omega)
+      rw [Tlog.storedHashIndex_zero_eq] at hshi
+      simp only [Int.natCast_zero] at hshi
+      have e2 : ((Tlog.S m : Nat) : Int) + 1 = ((Tlog.S m + 1 : Nat) : Int) := by omega
+      simp only [hshi, mbind_ok, e2]
+      by_cases hs1 : Tlog.S m + 1 < 2 ^ 63
+      · obtain ⟨g, rfl⟩ : ∃ g, fuel = g + 1 := ⟨fuel - 1, by omega⟩
+        have h64 : m < 2 ^ 64 := by omega
+        have hpow : m < 2 ^ g := Nat.lt_of_lt_of_le h64 (Nat.pow_le_pow_right (by omega) (by omega))
+        have hto : Tlog.trailingOnes g m = Tlog.trailingOnes 64 m := by
+          rw [Tlog.trailingOnes_eq_tz 64 m h64, Tlog.trailingOnes_eq_tz g m hpow]
+        have hl := StoredHashCount_loop1_overflow g m (Tlog.S m + 1) hpow h64 hs1 (by rw [hto]; omega)
+        simp only [chk64_natCast hs1, mbind_ok, toU64_natCast h64, hl, mbind_error]
+      · simp only [chk64_natCast_overflow (show 2 ^ 63 ≤ Tlog.S m + 1 by omega), mbind_error]
+    · have hov := StoredHashIndex_overflow fuel 0 m (by omega) (by omega)
+        (by rw [Tlog.storedHashIndex_zero_eq]; omega) (by omega)
+      simp only [Int.natCast_zero] at hov
+      simp only [hov, mbind_error]
+
 /-! ### SplitStoredHashIndex(MaxInt64) -/
 
 /-- one iteration of the loop of SplitStoredHashIndex that does not stop -/
